@@ -115,7 +115,8 @@ func site() string {
 	frames := runtime.CallersFrames(pcs[:n])
 	for {
 		fr, more := frames.Next()
-		if fr.Function != "" && !contains(fr.Function, "/verifx/vorder") && !contains(fr.Function, "/verifx/vsync") {
+		if fr.Function != "" && !contains(fr.File, "/verifx/vorder/") && !contains(fr.File, "/verifx/vsync/") &&
+			!contains(fr.Function, "/verifx/vorder") && !contains(fr.Function, "/verifx/vsync") {
 			return fmt.Sprintf("%s:%d", trimPath(fr.File), fr.Line)
 		}
 		if !more {
